@@ -46,16 +46,6 @@ structure Response where
   body : Bytes
   deriving Repr, DecidableEq
 
-/-- whether one of the statements raises does not depend on the response state -/
-def effFails : Eff → Bool
-  | .setStatus a => (statusSet a).isNone
-  | .setHeader _ v => !hvalOk v
-  | .addHeader _ v => !hvalOk v
-  | .setBadHeader _ => false
-  | .setCookie _ _ => false
-
-def effsFail (l : List Eff) : Bool := l.any effFails
-
 /-- `errors_map.get(err.__class__) or errors_map.get(RequestError)` -/
 def mapped (shared : List SharedErr) (cls : String) : Option SharedErr :=
   match shared.find? (·.cls == cls) with
